@@ -388,7 +388,11 @@ func c05Primary(r *Run, shape string, faulting, nested bool) {
 			return
 		}
 		record()
-		for i, n := 0, t.Range(2, 4); i < n; i++ {
+		nwal := t.Range(2, 4)
+		if shape == "wal-commit" && t.Chance(1, 3) {
+			nwal = 0 // the interrupted commit is the first one in the log after the switch
+		}
+		for i := 0; i < nwal; i++ {
 			h.commit(t)
 			record()
 		}
@@ -782,6 +786,27 @@ func c05Replica(r *Run, shape string, faulting, nested bool) {
 		}
 		before, after, probe = steps[k-1].pos, steps[k].pos, steps[k].ltx
 	case "replica-snapshot":
+		if t.Chance(1, 4) {
+			// the node is AHEAD of the primary it follows now (a former primary
+			// with transactions the new one never got): it holds the whole
+			// history and receives a snapshot of an earlier position
+			snap, spos, err := c05SnapshotAt(r, h, steps[0].ltx)
+			if err != nil {
+				r.Inconclusive("snapshot: %v", err)
+				return
+			}
+			if !feed(snap, spos) {
+				return
+			}
+			for i := 1; i < len(steps); i++ {
+				if !feed(steps[i].ltx, steps[i].pos) {
+					return
+				}
+			}
+			before, after, probe = steps[len(steps)-1].pos, spos, snap
+			r.Count("c05.replica-snapshot.lower-txid")
+			break
+		}
 		// replica holds an older state (or nothing), receives a full snapshot
 		if t.Chance(1, 2) {
 			if !feed(steps[0].ltx, steps[0].pos) {
